@@ -66,7 +66,9 @@ process:
 	atomic.StoreUint32(&m.status, idle)
 	user := atomic.LoadInt32(&m.num)
 	system := atomic.LoadInt32(&m.systemNum)
-	if user > 0 || system > 0 {
+	// 暂停期间仅有普通消息待处理时不应重新竞选，否则会在 Resume 之前空转占满 CPU；
+	// Resume 在清除暂停标记后会自行竞选处理权，因此不会丢失唤醒。
+	if system > 0 || (user > 0 && !m.IsPaused()) {
 		if atomic.CompareAndSwapUint32(&m.status, idle, processing) {
 			goto process
 		}
